@@ -360,10 +360,87 @@ def job_robust(ctx: Ctx, natom):
     ctx.twin(())
 
 
+def job_ground_accuracy(ctx: Ctx, what):
+    """accuracy clauses on the float code with the real SciPy drivers (not a solver question; ground enumeration): Gaussian charges vs their analytic
+    Coulomb potential (atol 1e-2, as documented in the suite), linearity of the solution in the density, exactness of the robust solver on its own core model."""
+    import warnings
+    warnings.simplefilter("ignore")
+    from scipy.special import erf
+    from grid.atomgrid import AtomGrid
+    from grid.molgrid import MolGrid
+    from grid.onedgrid import GaussLegendre
+    from grid.rtransform import BeckeRTransform, InverseRTransform
+    from grid.becke import BeckeWeights
+    import grid.poisson as po, grid.coulomb as co
+    from grid.robust_poisson import solve_poisson_robust
+    ctx.encoded(po.solve_poisson_bvp, po.solve_poisson_ivp, solve_poisson_robust)
+    tf = BeckeRTransform(1e-5, 1.5)
+    rg = tf.transform_1d_grid(GaussLegendre(50))
+    itf = InverseRTransform(tf)
+
+    def rho(p, cs, al, cf):
+        return sum(c * (a / np.pi) ** 1.5 * np.exp(-a * np.sum((p - x) ** 2, axis=1)) for x, a, c in zip(cs, al, cf))
+
+    def pot(p, cs, al, cf):
+        out = 0
+        for x, a, c in zip(cs, al, cf):
+            r = np.linalg.norm(p - x, axis=1)
+            out = out + c * np.where(r > 1e-10, erf(np.sqrt(a) * r) / np.maximum(r, 1e-300), 2 * np.sqrt(a / np.pi))
+        return out
+    rng = np.random.default_rng(harness.seed())
+    q = rng.normal(size=(6, 3)) * 1.5
+    bad = {}
+    if what == "robust-core":
+        atn, atc = np.array([6, 8]), np.array([[0, 0, -1.1], [0, 0, 1.1]])
+        mg = MolGrid(atn, [AtomGrid(rg, degrees=[11], center=c) for c in atc], BeckeWeights(order=3), store=True)
+        dens, vex = 0, 0
+        for z, c in zip(atn, atc):
+            cfs, als = co.load_atomic_gaussian_params(int(z))
+            dens = dens + sum(cc * (a / np.pi) ** 1.5 * np.exp(-a * np.sum((mg.points - c) ** 2, axis=1)) for cc, a in zip(cfs, als))
+            vex = vex + co.coulomb_potential(q, np.tile(c, (len(cfs), 1)), cfs, als)
+        v = solve_poisson_robust(mg, dens, itf, atn, atc, include_origin=True, remove_large_pts=10.0)(q)
+        err = float(np.max(np.abs(v - vex)))
+        if not err <= 1e-6 * float(np.max(np.abs(vex))):
+            bad["robust solver on its own fitted core model (C, O)"] = dict(max_abs_error=err, potential_scale=float(np.max(np.abs(vex))))
+        label = "robust solver == analytic core potential when the density is the fitted core model (relative 1e-6)"
+    elif what == "atom":
+        ag = AtomGrid(rg, degrees=[9])
+        cs, al, cf = [np.zeros(3), np.array([0.0, 0.0, 0.3])], [1.0, 2.5], [1.0, 0.5]
+        v = po.solve_poisson_bvp(ag, rho(ag.points, cs, al, cf), itf, include_origin=True, remove_large_pts=10.0)(q)
+        e1 = float(np.max(np.abs(v - pot(q, cs, al, cf))))
+        v = po.solve_poisson_ivp(ag, rho(ag.points, cs[:1], al[:1], cf[:1]), itf, r_interval=(1000, 1e-5))(q)
+        e2 = float(np.max(np.abs(v - pot(q, cs[:1], al[:1], cf[:1]))))
+        if not e1 <= 1e-2:
+            bad["atomic grid, BVP, off-centre Gaussian (l > 0 components)"] = e1
+        if not e2 <= 1e-2:
+            bad["atomic grid, IVP, centred Gaussian"] = e2
+        label = "atomic grid: BVP (two Gaussians, one off-centre) and IVP (centred Gaussian) match erf(sqrt(a) r)/r within 1e-2"
+    elif what == "linearity":
+        ag = AtomGrid(rg, degrees=[9])
+        f1, f2 = rho(ag.points, [np.zeros(3)], [1.0], [1.0]), rho(ag.points, [np.array([0.0, 0.0, 0.3])], [2.5], [1.0])
+        S = lambda f: po.solve_poisson_bvp(ag, f, itf, include_origin=True, remove_large_pts=10.0)(q)
+        e3 = float(np.max(np.abs(S(f1 + 2 * f2) - S(f1) - 2 * S(f2))))
+        if not e3 <= 1e-3:
+            bad["V[f1 + 2 f2] - V[f1] - 2 V[f2]"] = e3
+        label = "BVP solution is linear in the density (1e-3)"
+    else:
+        atc, atn = np.array([[0, 0, -0.7], [0, 0, 0.7]]), np.array([1, 1])
+        mg = MolGrid(atn, [AtomGrid(rg, degrees=[11], center=c) for c in atc], BeckeWeights(order=3), store=True)
+        v = po.solve_poisson_bvp(mg, rho(mg.points, list(atc), [1.2, 0.8], [1.0, 1.0]), itf, include_origin=True, remove_large_pts=10.0)(q)
+        e4 = float(np.max(np.abs(v - pot(q, list(atc), [1.2, 0.8], [1.0, 1.0]))))
+        if not e4 <= 1e-2:
+            bad["two-centre molecular grid, BVP"] = e4
+        label = "molecular grid (2 centres): BVP matches the analytic potential within 1e-2"
+    (ctx.ok if not bad else ctx.fail)("float code: " + label, detail=str(bad)[:300], key=f"accuracy:{what}", how="ground enumeration (not a solver obligation)", replay=(lambda m: (True, bad)), **({} if not bad else dict(model={})))
+    ctx.twins_sat += 1
+
+
 def jobs(tier):
     js = [Job("atom/bvp/l<=1", job_atom, "bvp", 3, False), Job("atom/bvp/origin-in-grid", job_atom, "bvp", 2, True), Job("atom/ivp/l<=1", job_atom, "ivp", 3, False),
           Job("molecular", job_molecular), Job("laplacian", job_laplacian), Job("robust/2", job_robust, 2)]
+    js += [Job("ground/robust-core", job_ground_accuracy, "robust-core"), Job("ground/atom", job_ground_accuracy, "atom")]
     if tier == "thorough":
+        js += [Job("ground/linearity", job_ground_accuracy, "linearity"), Job("ground/molecule", job_ground_accuracy, "molecule")]
         js += [Job("atom/bvp/l<=2", job_atom, "bvp", 5, False), Job("atom/ivp/l<=2", job_atom, "ivp", 5, False), Job("robust/3", job_robust, 3)]
     only = os.environ.get("SYMGRID_ONLY")
     return [j for j in js if not only or only in j.name]
@@ -375,7 +452,7 @@ def main():
     return harness.finish(
         PROP, res, t0, "DESIGN.md#c16",
         bounds=dict(l="l <= 1 (quick) / 2", atoms="2 (quick) / 3 centres in the robust solver, 3 atoms in the molecular fan-out", radial_nodes="3 symbolic (with and without r = 0)", density="uninterpreted harmonic components / symbolic values"),
-        outside=["every accuracy statement (matches the analytic potential within the documented accuracy): numerical behaviour of SciPy's solve_bvp / solve_ivp", "the NNLS split (split2=True)",
+        outside=["accuracy statements are not solver questions: sampled on the float code by ground jobs (robust-core exactness, atomic BVP/IVP vs erf potential; thorough: linearity, two-centre molecule)", "the NNLS split (split2=True)",
                  "AtomGrid.radial_component_splines / interpolation themselves (C09)"],
         assumptions=["solve_ode_bvp / solve_ode_ivp (as imported by poisson.py) and solve_poisson_bvp / coulomb_potential / load_atomic_gaussian_params (as imported by robust_poisson.py) replaced by capturing stubs",
                      "atomic / molecular grids replaced by duck-typed stubs with uninterpreted harmonic components"])
